@@ -93,6 +93,22 @@ fn real_lex(src: &str) -> J {
     }
 }
 
+/// does the real lexer hit its first error while an f-string is open?
+fn lexer_stops_inside_fstring(src: &str) -> bool {
+    let cm = CodeMap::new("c.star".to_owned(), src.to_owned());
+    let lx = Lexer::new(cm.source(), &Dialect::Standard, cm.clone());
+    let mut open = 0i64;
+    for t in lx {
+        match t {
+            Ok((_, Token::FStringStart(_), _)) => open += 1,
+            Ok((_, Token::FStringEnd, _)) => open -= 1,
+            Ok(_) => {}
+            Err(_) => return open > 0,
+        }
+    }
+    false
+}
+
 fn non_boundaries(src: &str) -> Vec<usize> {
     (1..src.len()).filter(|i| !src.is_char_boundary(*i)).collect()
 }
@@ -158,10 +174,17 @@ fn observe(id: &J, gen: &str, src: &str, lex: bool, keep_src: bool) -> J {
                 // re-parse to get at the span (parse_catch only keeps the message)
                 let e = util::catch(|| match AstModule::parse("c.star", src.to_owned(), d) {
                     Err(e) => {
-                        let mlen = format!("{}", e.without_diagnostic()).len();
+                        let msg = format!("{}", e.without_diagnostic());
+                        let mlen = msg.len();
+                        // where the error arose, as observed on the real lexer (identifies the failing site)
+                        let ctx = if msg.contains("escape sequence") {
+                            if lexer_stops_inside_fstring(src) { "fstring_escape" } else { "string_escape" }
+                        } else {
+                            "other"
+                        };
                         match e.span() {
-                            Some(fs) => json!({"none": false, "b": fs.span.begin().get(), "e": fs.span.end().get(), "mlen": mlen}),
-                            None => json!({"none": true, "b": 0, "e": 0, "mlen": mlen}),
+                            Some(fs) => json!({"none": false, "b": fs.span.begin().get(), "e": fs.span.end().get(), "mlen": mlen, "ctx": ctx}),
+                            None => json!({"none": true, "b": 0, "e": 0, "mlen": mlen, "ctx": ctx}),
                         }
                     }
                     Ok(_) => json!({"none": true, "b": 0, "e": 0, "mlen": 0}),
